@@ -6,6 +6,10 @@ def run(ctx):
     ctx.prove(ctx.theorems())
     ctx.build_harness()
     programs = c17c20.c20_family(ctx.seed, ctx.quick)
+    # a stray unpark aimed at a thread that is blocked in block_on (after an earlier, real park/unpark round) must only
+    # leave a token: block_on re-polls only after a wake (or the one spurious return)
+    programs += ["cfg x=2 f=1 | T0: spawn 1; park; fadd 1 1 rlx; blockon 0 0; join 1 | T1: unpark 0; fadd 1 1 rlx; unpark 0; st 0 1 rel; wake 0",
+                 "cfg x=2 f=1 | T0: spawn 1; park; st 1 1 rlx; blockon 0 0; join 1 | T1: unpark 0; await 1 1 rlx; unpark 0; st 0 1 rel; wake 0"]
     ctx.assumptions.append("the futures are scripted (harness): poll = check flag (Acquire); register the waker in a "
                            "mutex-protected slot (mode 0) or an AtomicWaker (mode 1); check the flag again; the Waker "
                            "vtable plumbing of future::block_on is exercised, not modelled beyond its refcount effects")
